@@ -122,6 +122,19 @@ Definition conc_chclose_ok (i : cscenario) (o : cobs) : bool :=
   | _ => true
   end.
 
+(* a broker Connection.Close with an error code: every call that fails reports a
+   connection error carrying that code *)
+Definition conc_connclose_code_ok (i : cscenario) (o : cobs) : bool :=
+  match cs_events i with
+  | [EvConnClose code] =>
+    forallb (fun e =>
+      match ce_res e with
+      | CRErr er => ekind_eqb (e_kind er) EConn && option_eqb Z.eqb (e_code er) (Some code)
+      | r => completed r
+      end) (co_events o) && co_parse_ok o
+  | _ => true
+  end.
+
 (* ---------- C01: frames on the wire ---------- *)
 (* per channel: Publish, Header n, bodies adding up to n - with nothing of that channel in between *)
 Fixpoint wire_chan_ok (fuel : nat) (l : list wfr) : bool :=
